@@ -16,8 +16,10 @@ EXTENDS Text, FiniteSets, TLC
 CONSTANT Terminators      \* set of strings: every style's multi-line closer and the special endings (binding)
 
 TagText == [lic |-> "SPDX-License-Identifier:", con |-> "SPDX-FileContributor:",
-            cop |-> "SPDX-FileCopyrightText:", snip |-> "SPDX-SnippetCopyrightText:", word |-> "Copyright", wordc |-> "Copyright (C)"]
-IsCop(kind) == kind \in {"cop", "snip", "word", "wordc"}
+            cop |-> "SPDX-FileCopyrightText:", snip |-> "SPDX-SnippetCopyrightText:", word |-> "Copyright", wordc |-> "Copyright (C)",
+            \* SIGNSIGN stands for the copyright sign U+00A9 (TLC's JSON reader mangles non-ASCII; the harness writes the real sign)
+            sym |-> "SIGNSIGN", wordsym |-> "Copyright SIGNSIGN"]
+IsCop(kind) == kind \in {"cop", "snip", "word", "wordc", "sym", "wordsym"}
 
 RECURSIVE Cat(_)
 Cat(ss) == IF ss = <<>> THEN "" ELSE ss[1] \o Cat(Tail(ss))
